@@ -39,9 +39,17 @@ type Semaphore struct {
 
 // NewSem new a Semaphore
 func NewSem(n uint32) *Semaphore {
+	// the realCapacity can not exceed the maxCapacity (same as in SetMaxCount):
+	// acquiring a negative amount below would leave the weighted semaphore with
+	// a negative count, and the first Release would panic.
+	realCapacity := int64(n)
+	if realCapacity > maxCapacity {
+		realCapacity = maxCapacity
+	}
+
 	s := &Semaphore{
 		sem:          semaphore.NewWeighted(maxCapacity),
-		realCapacity: int64(n),
+		realCapacity: realCapacity,
 	}
 
 	s.sem.Acquire(context.Background(), maxCapacity-s.realCapacity)
